@@ -84,6 +84,25 @@ def fixed_programs():
                     return r
                 body = ("call", "G", [("var", "X"), rebuild(sp)], None)
                 out.append({"params": mp, "names": [], "funs": [f], "consts": [], "macros": [], "body": body, "tag": "destr_%s_%s_%s" % (sname, kind, pick)})
+    # an @ capture nested one and two levels inside a destructured parameter, every name read, inline and not
+    for kind in ("defun", "inline"):
+        for depth in (1, 2):
+            cap = ("@", "PT", ("p", [("n", "P", "I"), ("n", "Q", "I")], None))
+            inner = ("p", [("n", "A", "I"), cap], None) if depth == 1 else ("p", [("n", "A", "I"), ("p", [cap, ("n", "B", "I")], None)], None)
+            for pick in ("A", "P", "Q", "Z"):
+                f = {"name": "NCAP", "kind": kind, "params": ("p", [inner, ("n", "Z", "I")], None), "names": [], "body": ("var", pick), "rtype": "I"}
+                mp3 = ("p", [("n", "X1", "I"), ("n", "X2", "I"), ("n", "X3", "I"), ("n", "X4", "I")], None)
+                pq = ("list", [("var", "X2"), ("var", "X3")])
+                arg = ("list", [("var", "X1"), pq]) if depth == 1 else ("list", [("var", "X1"), ("list", [pq, ("int", 77)])])
+                out.append({"params": mp3, "names": [], "funs": [f], "consts": [], "macros": [], "body": ("call", "NCAP", [arg, ("var", "X4")], None), "tag": "nestedcap_%s_%d_%s" % (kind, depth, pick)})
+    # a (mod ...) form written literally in the main expression, next to calls of ordinary functions
+    for nf in (1, 2):
+        fs = [{"name": "DBLM", "kind": "defun", "params": ("p", [("n", "A", "I")], None), "names": [], "body": ("op", "*", [("var", "A"), ("int", 2)]), "rtype": "I"}]
+        body = ("call", "DBLM", [("var", "X")], None)
+        if nf == 2:
+            fs.append({"name": "ADDM", "kind": "defun", "params": ("p", [("n", "A", "I"), ("n", "B", "I")], None), "names": [], "body": ("op", "+", [("call", "DBLM", [("var", "A")], None), ("var", "B")]), "rtype": "I"})
+            body = ("call", "ADDM", [("var", "X"), ("var", "Y")], None)
+        out.append({"params": ("p", [("n", "X", "I"), ("n", "Y", "I")], None), "names": [], "funs": fs, "consts": [], "macros": [], "body": ("modwrap", body), "tag": "embeddedmod_%d" % nf})
     # an @ capture used inside a branch of an if, bound to an argument with more structure than the sub-pattern names
     for kind in ("defun", "inline"):
         for shape in ("extra", "exact"):
@@ -100,6 +119,17 @@ def fixed_programs():
         for kind in ("defun", "inline"):
             f = {"name": "SEL", "kind": kind, "params": ("p", [("n", "C", "I"), ("n", "X", "I"), ("n", "Y", "I")], None), "names": [], "body": ("if", ("var", "C"), ("var", "X"), ("var", "Y")), "rtype": "I"}
             out.append({"params": mp2, "names": [], "funs": [f], "consts": [], "macros": [], "body": ("call", "SEL", [("hex", lit), ("var", "A"), ("var", "B")], None), "tag": "zerocond_%s_%d" % (kind, len(lit))})
+    # conditions that are compile-time constant PAIRS (true): a quoted list, a cons of literals, a list-valued constant
+    mp2 = ("p", [("n", "A", "I"), ("n", "B", "I")], None)
+    for ci, cond in enumerate((("q", srcgen.pylist([1, 2])), ("cons", ("int", 1), ("int", 2)), ("list", [("int", 0)]), ("const", "KL"))):
+        consts = [("KL", "defconstant", ("q", srcgen.pylist([3])))] if cond[0] == "const" else []
+        out.append({"params": mp2, "names": [], "funs": [], "consts": consts, "macros": [], "body": ("if", cond, ("var", "A"), ("var", "B")), "tag": "paircond_main_%d" % ci})
+        for kind in ("defun", "inline"):
+            f = {"name": "SELP", "kind": kind, "params": ("p", [("n", "C", "L"), ("n", "X", "I"), ("n", "Y", "I")], None), "names": [], "body": ("if", ("var", "C"), ("op", "+", [("var", "X"), ("int", 1)]), ("op", "*", [("var", "Y"), ("int", 2)])), "rtype": "I"}
+            g = {"name": "INNER", "kind": "defun", "params": ("p", [("n", "X", "I"), ("n", "Y", "I")], None), "names": [], "body": ("if", cond, ("op", "+", [("var", "X"), ("int", 1)]), ("op", "*", [("var", "Y"), ("int", 2)])), "rtype": "I"}
+            out.append({"params": mp2, "names": [], "funs": [f], "consts": consts, "macros": [], "body": ("call", "SELP", [cond, ("var", "A"), ("var", "B")], None), "tag": "paircond_%s_%d" % (kind, ci)})
+            if kind == "defun":
+                out.append({"params": mp2, "names": [], "funs": [g], "consts": consts, "macros": [], "body": ("call", "INNER", [("var", "A"), ("var", "B")], None), "tag": "paircond_body_%d" % ci})
     # functions whose compiled code is identical (one symbol-table key for both) but whose parameter lists differ
     def fn(name, params, body, kind="defun"):
         return {"name": name, "kind": kind, "params": ("p", [("n", x, "I") for x in params], None), "names": [], "body": body, "rtype": "I"}
